@@ -417,6 +417,13 @@ impl Writer for ProtobufWriter<'_> {
 
     #[inline]
     fn write_null<C: null::Constraint>(&mut self, _value: &Null) -> Result<(), Self::Error> {
+        // the generated .proto declares a `bytes` field for NULL: take its field number and
+        // write it (empty), so that following fields keep their numbers and a NULL CHOICE
+        // alternative is distinguishable
+        let tag = self.state.tag_counter + 1;
+        self.buffer.write_tagged_bytes(tag, &[])?;
+        self.state.tag_counter = tag;
+        self.state.format = Some(Format::LengthDelimited);
         Ok(())
     }
 }
